@@ -4,6 +4,7 @@
 mod mini;
 mod lenient;
 mod tree;
+mod iface;
 
 use std::collections::HashMap;
 use std::io::Cursor;
@@ -18,7 +19,7 @@ use fbh::classfile::facts::{facts_from_duke, facts_from_raw, ClassFacts, CodeFac
 use fbh::classfile::gen::{self, gen_class, GenCfg};
 use fbh::classfile::raw::{self, AttrInfo, Operands, TargetInfo};
 use fbh::prng::Rng;
-use fbh::report::{guarded, Report};
+use fbh::report::{crumb, guarded, Report};
 use fbh::Ctx;
 use mini::{It, MiniClass, MiniMethod};
 
@@ -224,12 +225,35 @@ fn impl_write(tree: &ClassFile) -> Result<Result<Vec<u8>, String>, String> {
 
 /// the same tree with every label-carrying instruction replaced by `nop`: the constants are put
 /// in the same order, so the bytes of every other instruction (ldc vs ldc_w!) can be read off
-fn probe_of(tree: &ClassFile) -> ClassFile {
+fn probe_of(tree: &ClassFile, drop_iface: bool) -> ClassFile {
 	let mut t = tree.clone();
 	for m in &mut t.methods {
 		if let Some(c) = &mut m.code {
-			for e in &mut c.instructions { if branch_of(&e.instruction).is_some() { e.instruction = Instruction::Nop; } }
+			for e in &mut c.instructions {
+				if branch_of(&e.instruction).is_some() || (drop_iface && matches!(e.instruction, Instruction::InvokeInterface(_))) { e.instruction = Instruction::Nop; }
+			}
 		}
+	}
+	t
+}
+
+/// a minimal class that holds only the instructions of the methods (no labels, frames, tables, attributes; label-carrying
+/// instructions and invokeinterface as nops; a one-letter class name): the opcode and trailing bytes the whole-class term
+/// takes from the probe do not depend on anything else, and this probe can be written when the tree itself cannot
+fn probe_minimal(tree: &ClassFile) -> ClassFile {
+	use duke::tree::class::ObjClassName;
+	use duke::tree::method::Method;
+	let name = unsafe { ObjClassName::from_inner_unchecked(java_string::JavaString::from("P")) };
+	let mut t = ClassFile::new(tree.version, tree.access, name, None, vec![]);
+	for m in &tree.methods {
+		let mut pm = Method::new(m.access, m.name.clone(), m.descriptor.clone());
+		if let Some(c) = &m.code {
+			let instructions = c.instructions.iter().map(|e| duke::tree::method::code::InstructionListEntry { label: None, frame: None,
+				instruction: if branch_of(&e.instruction).is_some() || matches!(e.instruction, Instruction::InvokeInterface(_)) { Instruction::Nop } else { e.instruction.clone() } }).collect();
+			pm.code = Some(Code { max_stack: Some(0), max_locals: Some(0), instructions, exception_table: vec![], last_label: None, line_numbers: None, local_variables: None,
+				runtime_visible_type_annotations: vec![], runtime_invisible_type_annotations: vec![], attributes: vec![] });
+		}
+		t.methods.push(pm);
 	}
 	t
 }
@@ -239,20 +263,30 @@ fn code_of(m: &raw::Member) -> Option<&raw::CodeAttr> {
 }
 
 /// per method: the bytes of every instruction of the probe
-fn plain_bytes(tree: &ClassFile) -> Result<Vec<Option<Vec<Vec<u8>>>>, String> {
-	let probe = probe_of(tree);
+fn plain_bytes(tree: &ClassFile) -> Result<Vec<Option<Vec<Vec<u8>>>>, String> { plain_bytes_with(tree, false) }
+/// `drop_iface`: invokeinterface instructions are nops in the probe too (their descriptor can make the write fail; the
+/// whole-class term does not take their bytes from the probe, and the opcode / trailing bytes it takes for the other
+/// instructions do not depend on pool indices)
+fn plain_bytes_with(tree: &ClassFile, drop_iface: bool) -> Result<Vec<Option<Vec<Vec<u8>>>>, String> { plain_bytes_of(probe_of(tree, drop_iface)) }
+fn plain_bytes_of(probe: ClassFile) -> Result<Vec<Option<Vec<Vec<u8>>>>, String> {
 	let bytes = match impl_write(&probe) { Ok(Ok(b)) => b, Ok(Err(e)) => return Err(format!("probe write failed: {e}")), Err(p) => return Err(format!("probe write panicked: {p}")) };
-	let rc = raw::parse(&bytes).map_err(|e| format!("probe does not parse: {e}"))?;
+	// the code arrays of the probe: through the strict parser, or (when it rejects the probe for a reason that is not the
+	// layout of the code, e.g. an operand of the wrong kind) through the extraction that checks bounds only
+	let codes: Vec<Option<Vec<u8>>> = match raw::parse(&bytes) {
+		Ok(rc) => rc.methods.iter().map(|rm| code_of(rm).map(|c| c.code.clone())).collect(),
+		Err(e) => match lenient::codes(&bytes) { Some(v) => v.into_iter().map(|c| c.map(|c| c.code)).collect(), None => return Err(format!("probe does not parse: {e}")) },
+	};
+	if codes.len() != probe.methods.len() { return Err("probe: method count differs".into()); }
 	let mut out = vec![];
-	for (m, rm) in probe.methods.iter().zip(rc.methods.iter()) {
-		match (&m.code, code_of(rm)) {
-			(Some(c), Some(rc)) => {
-				let insns = raw::decode_code(&rc.code)?;
+	for (m, code) in probe.methods.iter().zip(codes.iter()) {
+		match (&m.code, code) {
+			(Some(c), Some(code)) => {
+				let insns = raw::decode_code(code)?;
 				if insns.len() != c.instructions.len() { return Err(format!("probe: {} instructions decoded, tree has {}", insns.len(), c.instructions.len())); }
 				let mut v = vec![];
 				for (k, (o, _)) in insns.iter().enumerate() {
-					let end = if k + 1 < insns.len() { insns[k + 1].0 as usize } else { rc.code.len() };
-					v.push(rc.code[*o as usize..end].to_vec());
+					let end = if k + 1 < insns.len() { insns[k + 1].0 as usize } else { code.len() };
+					v.push(code[*o as usize..end].to_vec());
 				}
 				out.push(Some(v));
 			}
@@ -394,6 +428,9 @@ struct Run<'a> { r: &'a mut Report, cases_left: usize, per_stream: HashMap<Strin
 
 /// one class through everything.  `mutate` may modify the tree after reading (hypothesis-violating streams).
 fn through(run: &mut Run, stream: &str, desc: &str, orig: &[u8], mutate: Option<&dyn Fn(&mut ClassFile)>) {
+	// the reader recurses over bootstrap arguments, the writer over nested dynamic constants and annotation values and
+	// loops until the wide set is stable: a stack overflow / abort / endless loop is not catchable by `guarded`
+	crumb(&replay_text(&format!("harness process died while reading or writing this class (stream {stream})"), desc, orig));
 	let mut tree = match impl_read(orig) {
 		Ok(Ok(t)) => t,
 		Ok(Err(_)) => { run.r.count("reader_rejected"); return; }
@@ -412,6 +449,7 @@ fn through(run: &mut Run, stream: &str, desc: &str, orig: &[u8], mutate: Option<
 /// a tree edited after reading in a way that keeps the hypotheses of the theorems (unique labels, well-formed
 /// switches): the full oracle applies
 fn through_edited(run: &mut Run, stream: &str, desc: &str, orig: &[u8], edit: &dyn Fn(&mut ClassFile)) {
+	crumb(&replay_text(&format!("harness process died while reading or writing this class (stream {stream})"), desc, orig));
 	let mut tree = match impl_read(orig) { Ok(Ok(t)) => t, _ => { run.r.count("reader_rejected"); return; } };
 	edit(&mut tree);
 	through_tree(run, stream, desc, orig, &tree, true);
@@ -444,6 +482,7 @@ fn through_tree_(run: &mut Run, stream: &str, desc: &str, orig: &[u8], tree: &Cl
 	let n_code = tree.methods.iter().filter(|m| m.code.is_some()).count();
 	let new = r.eval(&format!("{stream}:{desc}:{}", hex(&orig[..orig.len().min(64)])), n_code > 0);
 	let _ = new;
+	crumb(&replay_text(&format!("harness process died in duke::write_class (or in the probe write) of this tree (stream {stream})"), desc, orig));
 	let res = impl_write(tree);
 	let mut parsed: Option<raw::RawClass> = None;
 	if !from_reading {
@@ -510,20 +549,24 @@ fn through_tree_(run: &mut Run, stream: &str, desc: &str, orig: &[u8], tree: &Cl
 	let mut plain_cache: Option<Result<Vec<Option<Vec<Vec<u8>>>>, String>> = None;
 	let class_stream = stream.split('+').next().unwrap_or(stream).to_string();
 	// the assembled boundary constructions differ only in their code (covered method by method below): a few of each
-	let class_cap = match class_stream.as_str() { "generated" | "corpus" | "frames-mutated" | "frames-restart" => run.class_cap, "not-from-reading" | "shared-boundary" => run.class_cap / 8, _ => run.class_cap / 16 };
+	let class_cap = match class_stream.as_str() { "generated" | "corpus" | "frames-mutated" | "frames-restart" | "frames-delta" | "iface-args" | "iface-malformed" | "error-sites" => run.class_cap, "not-from-reading" | "shared-boundary" => run.class_cap / 8, _ => run.class_cap / 16 };
 	if run.class_left > 0 && n_insns <= 3000 && *run.class_per_stream.get(&class_stream).unwrap_or(&0) < class_cap {
 		let pl = if n_code == 0 { Ok(vec![None; tree.methods.len()]) } else { plain_bytes(tree) };
-		match &pl {
+		let has_iface = tree.methods.iter().filter_map(|m| m.code.as_ref()).any(|c| c.instructions.iter().any(|e| matches!(e.instruction, Instruction::InvokeInterface(_))));
+		let mut pl_class = if pl.is_err() && has_iface { plain_bytes_with(tree, true) } else { pl.clone() };
+		if pl_class.is_err() { pl_class = plain_bytes_of(probe_minimal(tree)); if pl_class.is_ok() { r.count("class_case_minimal_probe"); } }
+		match &pl_class {
 			Ok(p) => match tree::class_term(tree, p) {
-				Ok((term, strings)) => {
+				Ok((term, strings, uni)) => {
 					let ans = match &res { Ok(Ok(out)) => format!("(KOk {})", tree::pack(out)), Ok(Err(_)) => "KErr".into(), Err(_) => "KPanic".into() };
 					let total: usize = strings.iter().map(|b| b.len()).sum::<usize>() + match &res { Ok(Ok(out)) => out.len(), _ => 0 };
-					if total <= 60_000 {
+					if total <= 140_000 {
 						run.class_left -= 1;
 						*run.class_per_stream.entry(class_stream.clone()).or_insert(0) += 1;
 						r.count("class_cases"); r.count(match &res { Ok(Ok(_)) => "class_answer_ok", Ok(Err(_)) => "class_answer_err", Err(_) => "class_answer_panic" });
 						r.count_n("class_case_bytes", match &res { Ok(Ok(out)) => out.len() as u64, _ => 0 });
-						r.case(&format!("class-{class_stream}"), format!("CClass [{}] {term} {ans} {from_reading}", strings.iter().map(|b| tree::pack(b)).collect::<Vec<_>>().join(";")));
+						if uni.contains("Some") { r.count("class_cases_with_non_ascii_strings"); }
+							r.case(&format!("class-{class_stream}"), format!("CClass [{}] {uni} {term} {ans} {from_reading}", strings.iter().map(|b| tree::pack(b)).collect::<Vec<_>>().join(";")));
 					} else { r.count("class_case_too_large"); }
 				}
 				Err(e) => { r.count("class_term_failed"); r.notes.push(format!("class term ({stream}): {e}")); r.notes.truncate(20); }
@@ -538,7 +581,7 @@ fn through_tree_(run: &mut Run, stream: &str, desc: &str, orig: &[u8], tree: &Cl
 	let cls: ClassIdx = parsed.as_ref().map(class_indices).unwrap_or_default();
 	let lcodes = match &res { Ok(Ok(out)) => lenient::codes(out), _ => None };
 	let sm_of = |mi: usize| -> Option<Vec<u8>> { lcodes.as_ref().and_then(|v| v.get(mi)).and_then(|c| c.as_ref()).and_then(|c| c.stack_map.clone()) };
-	let plain = match plain_cache.unwrap_or_else(|| plain_bytes(tree)) { Ok(p) => p, Err(e) => { r.count("probe_failed"); r.notes.push(format!("probe failed ({stream}): {e}")); r.notes.truncate(20); return; } };
+	let plain = match plain_cache.unwrap_or_else(|| plain_bytes(tree)) { Ok(p) => p, Err(e) => { r.count("probe_failed"); r.notes.push(format!("probe failed ({stream}): {}", e.chars().take(300).collect::<String>())); r.notes.truncate(20); return; } };
 	// when the write failed as a whole we can attribute the failure to a method only if exactly one method has code
 	for (mi, m) in tree.methods.iter().enumerate() {
 		let Some(c) = &m.code else { continue };
@@ -734,8 +777,8 @@ pub fn run(ctx: &Ctx) -> anyhow::Result<Report> {
 	let mut r = Report::new("C02", "C02.Run");
 	r.shard_size = 24;
 	let mut rng = Rng::new(ctx.seed);
-	r.rule = "class files (assembled boundary constructions, random near-boundary methods, javac corpus) -> duke::read_class -> duke::write_class; oracle: the independent strict parser must accept the output and every branch/switch arm/exception range/table pc must designate the image of the same tree instruction; correspondence: every method body abstracted to the layout level (plain instruction bytes taken from a probe write in which label-carrying instructions are nops) and the Coq model of write_code compared byte for byte with the written code array and tables. Non-trivial = the class has at least one method with code; distinct by stream, description and class prefix.".into();
-	let mut run = Run { r: &mut r, cases_left: if ctx.thorough { 9000 } else { 1100 }, per_stream: HashMap::new(), cap: if ctx.thorough { 1500 } else { 230 }, pool_left: if ctx.thorough { 300 } else { 60 }, ldc_left: if ctx.thorough { 600 } else { 120 }, rename_left: if ctx.thorough { 4000 } else { 400 }, bsm_left: if ctx.thorough { 300 } else { 60 }, class_left: if ctx.thorough { 3000 } else { 520 }, class_per_stream: HashMap::new(), class_cap: if ctx.thorough { 1300 } else { 200 }, pool_per_stream: HashMap::new(), ldc_per_stream: HashMap::new() };
+	r.rule = "class files (assembled boundary constructions, random near-boundary methods, javac corpus) -> duke::read_class -> duke::write_class; oracle: the independent strict parser must accept the output and every branch/switch arm/exception range/table pc must designate the image of the same tree instruction; correspondence: every method body abstracted to the layout level (plain instruction bytes taken from a probe write in which label-carrying instructions are nops) and the Coq model of write_code compared byte for byte with the written code array and tables. Whole classes additionally as terms of the whole-class model (byte-for-byte, decoder = facts). Streams iface-args / iface-malformed: one invokeinterface per class with a generated descriptor (inside the JVMS grammar incl. multi-byte and supplementary characters in class names, arrays of long/double, 252..257 argument slots; outside the grammar: truncated, unbalanced, non-ASCII where a type is expected, unpaired surrogates) — oracle: count = 1 + slots of the harness' own reference, more than 255 is a clean error. Stream frames-delta: every frame shape at offset deltas 0, 62, 63, 64, 129. Non-trivial = the class has at least one method with code; distinct by stream, description and class prefix.".into();
+	let mut run = Run { r: &mut r, cases_left: if ctx.thorough { 9000 } else { 1100 }, per_stream: HashMap::new(), cap: if ctx.thorough { 1500 } else { 230 }, pool_left: if ctx.thorough { 300 } else { 60 }, ldc_left: if ctx.thorough { 600 } else { 120 }, rename_left: if ctx.thorough { 4000 } else { 400 }, bsm_left: if ctx.thorough { 300 } else { 60 }, class_left: if ctx.thorough { 3600 } else { 730 }, class_per_stream: HashMap::new(), class_cap: if ctx.thorough { 1300 } else { 200 }, pool_per_stream: HashMap::new(), ldc_per_stream: HashMap::new() };
 
 	let grow = 300usize; // fields: String constant lands beyond index 255 in the written pool
 	let one = |m: MiniMethod, nf: usize| MiniClass { n_fields: nf, methods: vec![m] };
@@ -789,6 +832,46 @@ pub fn run(ctx: &Ctx) -> anyhow::Result<Report> {
 	for nf in 240usize..=252 {
 		emit(&mut run, "ldc-255", format!("ldc with {nf} fields"), one(MiniMethod { items: vec![It::LdcStr, It::LdcInt, It::LdcLong, It::LdcStrW, bytes(&[RET])], ..Default::default() }, nf));
 	}
+	// 5b. invokeinterface: the count operand is recomputed by the writer from the descriptor
+	//     (get_arguments_size).  Valid descriptors (oracle: count = 1 + argument slots of the JVMS grammar,
+	//     computed by the harness' own reference; more than 255 must be a clean error) and strings outside
+	//     the grammar that the reader accepts as descriptors (correspondence with the model only)
+	{
+		let (nv, nm) = if ctx.thorough { (300, 200) } else { (40, 30) };
+		for (name, d) in iface::valid(&mut rng, nv) {
+			let slots = iface::reference_slots(&d);
+			let count = slots.map_or(1, |s| (s + 1) as u8);
+			let b = iface::build(&d, count);
+			let desc = format!("invokeinterface descriptor {name}: {:?} (code points {:?})", JStr::from_code_points(&d), d);
+			match slots {
+				None => { run.r.count("iface_generator_outside_grammar"); run.r.notes.push(format!("iface generator produced a descriptor outside the grammar: {desc}")); run.r.notes.truncate(20); }
+				Some(s) => {
+					run.r.count(if s + 1 <= 255 { "iface_valid_fits" } else { "iface_valid_too_many_slots" });
+					crumb(&replay_text("harness process died while reading or writing this class (stream iface-args)", &desc, &b));
+					match impl_read(&b) {
+						Ok(Ok(t)) => match impl_write(&t) {
+							Ok(Ok(out)) => {
+								let got = raw::parse(&out).ok().and_then(|rc| rc.methods.first().and_then(code_of).and_then(|c| raw::decode_code(&c.code).ok()).and_then(|is| is.iter().find_map(|(_, i)| if let Operands::InvokeInterface { count, .. } = i.operands { Some(count) } else { None })));
+								if s + 1 > 255 { run.r.violation(format!("invokeinterface with {} argument slots (count would be {}) was written instead of failing cleanly", s, s + 1), replay_text("count does not fit u8 but write_class succeeded", &desc, &b)); }
+								else if got != Some((s + 1) as u8) { run.r.violation(format!("invokeinterface count written as {got:?}, the descriptor has {s} argument slots (count {} expected)", s + 1), replay_text(&format!("invokeinterface count {got:?} != 1 + {s}"), &desc, &b)); }
+							}
+							Ok(Err(e)) => { if s + 1 <= 255 { run.r.violation(format!("write_class failed on a valid invokeinterface descriptor with {s} argument slots: {e}"), replay_text(&format!("write_class failed: {e}"), &desc, &b)); } }
+							Err(_) => {} // reported by `through`
+						},
+						_ => { run.r.violation("reader rejects a class with a valid invokeinterface descriptor".into(), replay_text("reader rejected the class", &desc, &b)); }
+					}
+					through(&mut run, "iface-args", &desc, &b, None);
+				}
+			}
+		}
+		let ident = |_: &mut ClassFile| {};
+		for (name, d) in iface::malformed(&mut rng, nm) {
+			let b = iface::build(&d, 1);
+			let desc = format!("invokeinterface descriptor outside the grammar {name}: code points {:?}", d);
+			run.r.count(if iface::reference_slots(&d).is_some() { "iface_malformed_generator_inside_grammar" } else { "iface_malformed" });
+			through(&mut run, "iface-malformed", &desc, &b, Some(&ident));
+		}
+	}
 	// 6. random near-boundary methods
 	let n_rand = if ctx.thorough { 1500 } else { 220 };
 	for i in 0..n_rand {
@@ -816,6 +899,29 @@ pub fn run(ctx: &Ctx) -> anyhow::Result<Report> {
 			}
 		};
 		through(&mut run, "not-from-reading", &format!("mutated tree kind {kind} #{i}"), &b, Some(&f));
+	}
+	// 7b. trees that reading cannot produce, aimed at the error sites of the whole-class writer: a u8 count of 255 / 256
+	//     (MethodParameters), a string of 65535 / 65536 bytes (PoolWrite::write), a u16 count of 65535 / 65536 (thorough)
+	{
+		use duke::tree::method::{MethodParameter, ParameterFlags};
+		let base = mini::build(&MiniClass { n_fields: 2, methods: vec![MiniMethod { items: vec![bytes(&[RET])], ..Default::default() }] });
+		if let Ok(b) = base {
+			let mut kinds: Vec<(String, Box<dyn Fn(&mut ClassFile)>)> = vec![];
+			for n in [255usize, 256] {
+				kinds.push((format!("{n} method parameters"), Box::new(move |t: &mut ClassFile| { if let Some(m) = t.methods.get_mut(0) {
+					m.method_parameters = Some((0..n).map(|_| MethodParameter { name: None, flags: ParameterFlags::from(0u16) }).collect()); } })));
+			}
+			for n in [65535usize, 65536] {
+				kinds.push((format!("source file name of {n} bytes"), Box::new(move |t: &mut ClassFile| { t.source_file = Some(java_string::JavaString::from("s".repeat(n))); })));
+			}
+			if ctx.thorough {
+				for n in [65535usize, 65536] {
+					kinds.push((format!("{n} interfaces"), Box::new(move |t: &mut ClassFile| {
+						let name = t.name.clone(); t.interfaces = (0..n).map(|_| name.clone()).collect(); })));
+				}
+			}
+			for (what, f) in &kinds { through(&mut run, "error-sites", &format!("mutated tree: {what}"), &b, Some(f.as_ref())); }
+		}
 	}
 	// 8. classes generated by the shared class-file generator (every attribute kind, every constant
 	//    kind, every general instruction), assembled under several layouts
@@ -883,6 +989,45 @@ pub fn run(ctx: &Ctx) -> anyhow::Result<Report> {
 				let f = move |t: &mut ClassFile| { if let Some(c) = t.methods.get_mut(0).and_then(|m| m.code.as_mut()) {
 					c.instructions.insert(at, duke::tree::method::code::InstructionListEntry { label: None, frame: None, instruction: Instruction::Nop }); } };
 				through_edited(&mut run, "frames-restart", &format!("branch_chain {kk} 32767 with frames on the targets and a nop inserted at instruction {at}"), &b, &f);
+			}
+		}
+	}
+	// 9b'. every frame shape at every offset_delta class: the short forms hold a delta below 64 in the frame type, the
+	//      extended forms (same_frame_extended 251, same_locals_1_stack_item_frame_extended 247) a u16; gaps of
+	//      1, 63, 64, 65, 130 bytes between the frames (delta = gap - 1), each shape at each gap
+	{
+		use fbh::classfile::asm::{CodeSpec, LabelId};
+		let kinds: Vec<FrameKindG<LabelId>> = vec![
+			FrameKindG::Same, FrameKindG::SameLocals1(VTypeG::Null), FrameKindG::SameLocals1(VTypeG::Object("java/lang/String".into())),
+			FrameKindG::SameLocals1(VTypeG::Uninitialized(LabelId(0))), FrameKindG::Chop(1), FrameKindG::Chop(3),
+			FrameKindG::Append(vec![VTypeG::Integer]), FrameKindG::Append(vec![VTypeG::Long, VTypeG::Object("corp/gen/FramesDelta".into()), VTypeG::Uninitialized(LabelId(1))]),
+			FrameKindG::Full { locals: vec![], stack: vec![] }, FrameKindG::Full { locals: vec![VTypeG::Double, VTypeG::UninitializedThis], stack: vec![VTypeG::Float, VTypeG::Top] },
+		];
+		let gaps_all = [1usize, 63, 64, 65, 130];
+		let rounds = if ctx.thorough { 10 } else { 3 };
+		for round in 0..rounds {
+			// a method with one frame per (kind, gap) pair, in an order that depends on the round
+			let mut pairs: Vec<(usize, usize)> = vec![];
+			for k in 0..kinds.len() { for g in 0..gaps_all.len() { pairs.push((k, g)); } }
+			rng.shuffle(&mut pairs);
+			if !ctx.thorough { pairs.truncate(25 + 5 * round); }
+			let n = pairs.len();
+			let mut c = CodeSpec::new(3, 3);
+			for i in 0..n { c.insn(None, "ifeq", OperandG::Branch(LabelId(i as u32))); }
+			let mut frames = vec![];
+			for (i, (k, g)) in pairs.iter().enumerate() {
+				// the first gap is measured from the last ifeq: any position will do for the first frame
+				let gap = gaps_all[*g];
+				for _ in 1..gap { c.op(None, "nop"); }
+				c.op(Some(LabelId(i as u32)), "nop");
+				frames.push(FrameG { at: LabelId(i as u32), kind: kinds[*k].clone() });
+			}
+			c.op(None, "return");
+			c.frames = Some(frames);
+			let spec = gen::class_with_code("corp/gen/FramesDelta", c);
+			match try_assemble(&spec, &Knobs::default()) {
+				Ok(b) => through(&mut run, "frames-delta", &format!("every frame shape at gaps 1/63/64/65/130, round {round} seed {}", ctx.seed), &b, None),
+				Err(e) => { run.r.count("generator_rejected"); run.r.notes.push(format!("frames-delta: {e}")); run.r.notes.truncate(20); }
 			}
 		}
 	}
